@@ -15,7 +15,7 @@ func init() {
 		ID: "C07",
 		Explain: "Static necessary conditions for 'reported variations are legal lines and agree with the move played'. " +
 			"R1: alphaBeta clears its PV slot (setNull(ply)) before any return and before any descent. " +
-			"R2: pv.insert(ply, m) is called only with the move whose child search just returned, after that move has been undone, only on the value > alpha ∧ value < beta path; insert writes the move at bufIx(ply), copies the child's line from bufIx(ply+1) with the child's length and records length+1; the buffers have the triangular size. " +
+			"R2: pv.insert(ply, m) is called only with the move whose child search just returned, after that move has been undone, only on the value > alpha ∧ value < beta path, and every flow-graph path from that MakeMove to the splice passes a descent or a `value <= alpha` exit (the copied row was written for this move); insert writes the move at bufIx(ply), copies the child's line from bufIx(ply+1) with the child's length and records length+1; the buffers have the triangular size. " +
 			"R3: in iterativeDeepen the adopted move/ponder and the printed pv both come from pv.active() with no search call in between, only after the aspiration loop exited with a score strictly inside the window; ponder is cleared whenever the line is shorter than two moves and on the abort fallback. " +
 			"R4: the depth printed is the outer loop variable, and every cycle through the report passes the depth increment (at most one report per depth). " +
 			"Not decided: legality of PV moves (depends on run-time table contents), bufIx arithmetic.",
@@ -173,6 +173,20 @@ func c07R1R2(c *Ctx, p *Prog) {
 				ltBeta = true
 			}
 		}
+		if gtAlpha && mk != nil {
+			// the child's row holds the line of THIS move only if a child search ran for it: every path from
+			// the MakeMove to the splice passes a descent, or an edge on which the value is known to be <= alpha
+			// (so the splice's own `value > alpha` cannot hold). Correlated boolean flags (`fullSearched`) are
+			// resolved per incoming edge of their phi.
+			var alphaV ssa.Value
+			for _, ce := range controllingConds(in.Block()) {
+				if bo, ok := ce.Cond.(*ssa.BinOp); ok && bo.X == val && ((bo.Op == token.GTR && ce.True) || (bo.Op == token.LEQ && !ce.True)) {
+					alphaV = bo.Y
+				}
+			}
+			via := c07BypassPath(p, fn, mk.(ssa.Instruction), in.(ssa.Instruction), alphaV, val)
+			c.Check(via == "", r2, "alphaBeta#insert-child-searched", in.Pos(), "a path from MakeMove to the splice runs no child search for the move and is not closed by a `value <= alpha` exit (%s): the row of ply+1 then still holds a sibling's line, which is spliced behind this move", via)
+		}
 		c.Check(gtAlpha && ltBeta, r2, "alphaBeta#insert-window", in.Pos(), "the splice happens only when the child's value raised alpha and stayed below beta (value > alpha: %v, value < beta: %v)", gtAlpha, ltBeta)
 	}
 	c.Floor(r2, len(ins), 1, "pv.insert call sites in alphaBeta")
@@ -185,6 +199,124 @@ func c07R1R2(c *Ctx, p *Prog) {
 }
 
 // rootsAtParam: v is the parameter named name or a phi chain rooted at it / at values derived in the loop.
+// c07BypassPath searches the flow graph of fn for a path from the instruction after `from` to `to` that
+// passes no descent (alphaBeta, quiescence, or an own function calling them), no other MakeMove, and no
+// edge on which some value is known to be <= alpha. It returns a description of the first such path
+// ("" if there is none). A branch on a boolean phi of its own block is followed only in the direction
+// the incoming edge's constant dictates.
+func c07BypassPath(p *Prog, fn *ssa.Function, from, to ssa.Instruction, alpha, val ssa.Value) string {
+	isVal := map[ssa.Value]bool{} // the spliced value and everything merged into it by phis
+	var grow func(v ssa.Value)
+	grow = func(v ssa.Value) {
+		if v == nil || isVal[v] {
+			return
+		}
+		isVal[v] = true
+		if ph, ok := v.(*ssa.Phi); ok {
+			for _, e := range ph.Edges {
+				grow(e)
+			}
+		}
+	}
+	grow(val)
+	descends := func(x ssa.Instruction) bool {
+		if isCallTo(x, "search.(*Search).alphaBeta") || isCallTo(x, "search.(*Search).quiescence") {
+			return true
+		}
+		if ci, ok := x.(ssa.CallInstruction); ok {
+			if cal := ci.Common().StaticCallee(); cal != nil && cal.Pkg == fn.Pkg && cal.Blocks != nil {
+				return len(callsIn(cal, "search.(*Search).alphaBeta"))+len(callsIn(cal, "search.(*Search).quiescence")) > 0
+			}
+		}
+		return false
+	}
+	type st struct{ b, pred int }
+	seen := map[st]bool{}
+	var walk func(b *ssa.BasicBlock, start, pred int, trail []string) string
+	walk = func(b *ssa.BasicBlock, start, pred int, trail []string) string {
+		if start == 0 {
+			if seen[st{b.Index, pred}] {
+				return ""
+			}
+			seen[st{b.Index, pred}] = true
+		}
+		for _, x := range b.Instrs[start:] {
+			if x == to {
+				return strings.Join(trail, " -> ")
+			}
+			if descends(x) || (x != from && isCallTo(x, "board.(*Board).MakeMove")) {
+				return ""
+			}
+		}
+		succs := b.Succs
+		if iff, ok := b.Instrs[len(b.Instrs)-1].(*ssa.If); ok && len(succs) == 2 {
+			cond, pos := iff.Cond, true
+			for {
+				u, isNot := cond.(*ssa.UnOp)
+				if !isNot || u.Op != token.NOT {
+					break
+				}
+				cond, pos = u.X, !pos
+			}
+			skip := [2]bool{}
+			if bo, ok := cond.(*ssa.BinOp); ok && alpha != nil {
+				leqTrue := (bo.Op == token.LEQ && bo.Y == alpha && isVal[bo.X]) || (bo.Op == token.GEQ && bo.X == alpha && isVal[bo.Y])
+				leqFalse := (bo.Op == token.GTR && bo.Y == alpha && isVal[bo.X]) || (bo.Op == token.LSS && bo.X == alpha && isVal[bo.Y])
+				if leqTrue {
+					skip[b2i(!pos)] = true // successor 0 is taken when the (un-negated) condition holds
+				}
+				if leqFalse {
+					skip[b2i(pos)] = true
+				}
+			}
+			if ph, ok := cond.(*ssa.Phi); ok && ph.Block() == b && pred >= 0 && pred < len(ph.Edges) {
+				if k, isK := ph.Edges[pred].(*ssa.Const); isK && k.Value != nil && k.Value.Kind() == constant.Bool {
+					v := constant.BoolVal(k.Value) == pos // truth of the branch condition
+					skip[b2i(v)] = true                   // the other successor is infeasible from this edge
+				}
+			}
+			for i, s := range succs {
+				if skip[i] {
+					continue
+				}
+				if r := walk(s, 0, predIndex(s, b), append(trail[:len(trail):len(trail)], p.Rel(iff.Pos())+map[int]string{0: ":true", 1: ":false"}[i])); r != "" {
+					return r
+				}
+			}
+			return ""
+		}
+		for _, s := range succs {
+			if r := walk(s, 0, predIndex(s, b), trail); r != "" {
+				return r
+			}
+		}
+		return ""
+	}
+	b := from.Block()
+	for i, x := range b.Instrs {
+		if x == from {
+			return walk(b, i+1, -1, []string{p.Rel(from.Pos())})
+		}
+	}
+	return ""
+}
+
+func b2i(b bool) int {
+	if b {
+		return 1
+	}
+	return 0
+}
+
+func predIndex(s, b *ssa.BasicBlock) int {
+	for i, q := range s.Preds {
+		if q == b {
+			return i
+		}
+	}
+	return -1
+}
+
 func rootsAtParam(v ssa.Value, fn *ssa.Function, name string) bool {
 	for x := range backSlice(v, sliceOpts{}) {
 		if pr, ok := x.(*ssa.Parameter); ok && pr.Name() == name {
@@ -619,6 +751,9 @@ func init() {
 		Mutant{Name: "C07.R1-clear-after-quiescence-handoff", Prop: "C07", File: "search/search.go", Quick: true,
 			Old: "\ts.pv.setNull(ply)\n\n\tif d == 0 || ply >= MaxPlies-1 {\n\t\treturn s.quiescence(b, alpha, beta, ply, opts)\n\t}\n", New: "\tif d == 0 || ply >= MaxPlies-1 {\n\t\treturn s.quiescence(b, alpha, beta, ply, opts)\n\t}\n\n\ts.pv.setNull(ply)\n",
 			Expect: "C07.R1/alphaBeta#entry-clear"},
+		Mutant{Name: "C07.R2-drawn-child-not-searched", Prop: "C07", File: "search/search.go",
+			Old: "\t\tfullSearched := false\n", New: "\t\tfullSearched := false\n\t\tif b.FiftyCnt >= 100 || b.Threefold() >= 2 {\n\t\t\tgoto Fin\n\t\t}\n",
+			Expect: "C07.R2/alphaBeta#insert-child-searched"},
 		Mutant{Name: "C07.R2-insert-before-undo", Prop: "C07", File: "search/search.go",
 			Old: "\tFin:\n\n\t\tb.UndoMove(m, r)\n\t\ts.hstack.Pop()\n", New: "\tFin:\n\t\tif value > alpha && value < beta {\n\t\t\ts.pv.insert(ply, m)\n\t\t}\n\n\t\tb.UndoMove(m, r)\n\t\ts.hstack.Pop()\n",
 			Expect: "C07.R2/alphaBeta#insert-after-undo"},
